@@ -28,7 +28,7 @@ def run_fn(m, prog, name):
 
 def native(names):
     tdir = os.path.join(BUILD, 'macros-target')
-    r = subprocess.run(['cargo', 'build', '--offline', '--target-dir', tdir, '--bin', 'macro_native'], cwd=MACROS, env=dict(ENV, RUSTFLAGS='-A warnings'), capture_output=True, text=True)
+    r = subprocess.run(['cargo', 'build', '--offline', '--target-dir', tdir, '--bin', 'macro_native'], cwd=crate_dir(MACROS), env=dict(ENV, RUSTFLAGS='-A warnings'), capture_output=True, text=True)
     if r.returncode != 0:
         log(r.stderr[-2000:]); raise RuntimeError('native build of the macro subjects failed')
     out = subprocess.run([os.path.join(tdir, 'debug', 'macro_native')] + names, capture_output=True, text=True, timeout=300).stdout
